@@ -1242,6 +1242,14 @@ func (db *SiteDB) analyse(fi *FuncInfo) {
 			}
 			s.Must[key] = true
 			s.May[key] = true
+			// a call may change what a copied memory read stands for
+			for _, p := range s.Paths {
+				for k := range p {
+					if i := strings.Index(k, copyOp); i >= 0 && readsMemory(k[i+len(copyOp):]) {
+						delete(p, k)
+					}
+				}
+			}
 			if counted[key] {
 				// per-path call count, saturating at two
 				c1, c2 := countFact(1, key), countFact(2, key)
@@ -1275,6 +1283,41 @@ func (db *SiteDB) analyse(fi *FuncInfo) {
 						if obj := objOf(info, lhs); obj != nil {
 							s.Defs[obj] = call
 						}
+					}
+				}
+			}
+			// copy facts (see copyOp)
+			for _, lhs := range v.Lhs {
+				if _, isId := unparen(lhs).(*ast.Ident); !isId {
+					// a store through a field, element or pointer
+					for _, p := range s.Paths {
+						for k := range p {
+							if i := strings.Index(k, copyOp); i >= 0 && readsMemory(k[i+len(copyOp):]) {
+								delete(p, k)
+							}
+						}
+					}
+				}
+			}
+			if len(v.Lhs) == len(v.Rhs) && (v.Tok == token.ASSIGN || v.Tok == token.DEFINE) {
+				for i, lhs := range v.Lhs {
+					id, isId := unparen(lhs).(*ast.Ident)
+					if !isId || id.Name == "_" {
+						continue
+					}
+					obj, isVar := objOf(info, id).(*types.Var)
+					if !isVar || obj.Pkg() == nil || obj.Parent() == obj.Pkg().Scope() || !copyableExpr(info, v.Rhs[i]) {
+						continue
+					}
+					if _, isLit := unparen(v.Rhs[i]).(*ast.BasicLit); isLit {
+						continue
+					}
+					x, e := res.nameOf(obj), res.str(v.Rhs[i])
+					if x == e || strings.Contains(e, " ") || mentionsIdent(e, x) || res.str(id) != x {
+						continue // not a plain read, or x is an alias the resolver already expands
+					}
+					for _, p := range s.Paths {
+						p[x+copyOp+e] = true
 					}
 				}
 			}
@@ -1325,6 +1368,9 @@ func (db *SiteDB) analyse(fi *FuncInfo) {
 				continue // infeasible path
 			}
 			p[key] = want
+			if !withCopies(p, key, want) {
+				continue // contradicts what is known about the value the variable was copied from
+			}
 			kept = append(kept, p)
 		}
 		return kept
@@ -2077,4 +2123,92 @@ func pathCount(p FactSet, key string) (n int, known bool) {
 		return 1, true
 	}
 	return 0, true
+}
+
+// Copy facts.  After "x := E" (x a local, E a plain read: identifiers, fields, indexing,
+// dereference, conversions, len/cap) the path carries the fact "x := E" until x or an
+// identifier of E is assigned, or - when E reads memory - a call runs.  While it holds, a
+// condition established about x is also established about E and vice versa, so "msize :=
+// t.MSize; if msize == 0 { return }" refutes t.MSize == 0 on the continuing path exactly as
+// "if t.MSize == 0 { return }" does.  The operator is not "==" on purpose: rules that look
+// for tested equalities never see these.
+const copyOp = " := "
+
+func copyableExpr(info *types.Info, e ast.Expr) bool {
+	ok := true
+	ast.Inspect(e, func(n ast.Node) bool {
+		switch v := n.(type) {
+		case *ast.Ident, *ast.SelectorExpr, *ast.IndexExpr, *ast.StarExpr, *ast.ParenExpr, *ast.BasicLit:
+		case *ast.CallExpr:
+			if tv, isType := info.Types[v.Fun]; isType && tv.IsType() {
+				return ok // conversion
+			}
+			if id, isId := unparen(v.Fun).(*ast.Ident); isId {
+				if _, isB := info.Uses[id].(*types.Builtin); isB && (id.Name == "len" || id.Name == "cap") {
+					return ok
+				}
+			}
+			ok = false
+		case nil:
+		default:
+			ok = false
+		}
+		return ok
+	})
+	return ok
+}
+
+func readsMemory(e string) bool { return strings.ContainsAny(e, ".[*") }
+
+// replaceExpr replaces every occurrence of the expression text e that is delimited like an
+// operand (not part of a longer selector chain or identifier).
+func replaceExpr(expr, e, repl string) (string, bool) {
+	var b strings.Builder
+	found := false
+	for i := 0; i < len(expr); {
+		if i+len(e) <= len(expr) && expr[i:i+len(e)] == e {
+			before := i == 0 || !isIdentChar(expr[i-1]) && expr[i-1] != '.' && expr[i-1] != '&' && expr[i-1] != '*'
+			j := i + len(e)
+			after := j == len(expr) || !isIdentChar(expr[j]) && expr[j] != '.' && expr[j] != '[' && expr[j] != '('
+			if before && after {
+				b.WriteString(repl)
+				i = j
+				found = true
+				continue
+			}
+		}
+		b.WriteByte(expr[i])
+		i++
+	}
+	return b.String(), found
+}
+
+// withCopies adds to p the facts that follow from key=want through the copy facts of p;
+// it reports false when one of them contradicts what p already says (infeasible path).
+func withCopies(p FactSet, key string, want bool) bool {
+	var derived []string
+	for k, v := range p {
+		i := strings.Index(k, copyOp)
+		if i < 0 || !v {
+			continue
+		}
+		x, e := k[:i], k[i+len(copyOp):]
+		if strings.Contains(key, copyOp) {
+			continue
+		}
+		if mentionsIdent(key, x) {
+			derived = append(derived, replaceIdent(key, x, e))
+		} else if d, ok := replaceExpr(key, e, x); ok {
+			derived = append(derived, d)
+		}
+	}
+	for _, d := range derived {
+		if v, ok := p[d]; ok && v != want {
+			return false
+		}
+	}
+	for _, d := range derived {
+		p[d] = want
+	}
+	return true
 }
